@@ -142,3 +142,95 @@ def accum(stmt, ops=(ast.Add,)):
         if isinstance(v.right, ast.Name) and v.right.id == t and isinstance(v.op, (ast.Add, ast.Mult)):
             return t, v.left
     return None
+
+
+# ----------------------------------------------------------------------------- pattern matching
+def pmatch(pattern, node, binds=None):
+    """Compare `node` with a pattern (source text or ast).  Names `_x` in the pattern are wildcards
+    (bound consistently; `__` matches anything, unbound).
+    -> (status, binds, diffs) with status
+         'match'  equal up to the wildcards,
+         'leaf'   same shape (node kinds and arities) but some leaf -- a name, attribute name, constant
+                  or operator -- differs: the construct is recognised and says something else,
+         'shape'  different node kinds / arities: the construct is not the one the pattern describes."""
+    if isinstance(pattern, str):
+        pattern = ast.parse(pattern, mode='eval').body
+    binds = {} if binds is None else binds
+    diffs = []
+    status = ['match']
+
+    def worse(s):
+        order = {'match': 0, 'leaf': 1, 'shape': 2}
+        if order[s] > order[status[0]]:
+            status[0] = s
+
+    LEAFY = (ast.Name, ast.Constant, ast.Attribute)
+
+    def rec(p, n):
+        if isinstance(p, ast.Name) and p.id.startswith('_'):
+            if p.id == '__':
+                return
+            if p.id.startswith('_nm') and not isinstance(n, ast.Name):     # `_nmX`: binds plain names only
+                worse('shape')
+                diffs.append('%s instead of a name' % type(n).__name__)
+                return
+            t = ntext(n) if n is not None else None
+            if p.id in binds:
+                if binds[p.id][0] != t:
+                    worse('leaf')
+                    diffs.append('%s bound to `%s`, here `%s`' % (p.id, binds[p.id][1], ntext(n)))
+            else:
+                binds[p.id] = (t, ntext(n) if n is not None else None, n)
+            return
+        if type(p) is not type(n):
+            if isinstance(p, LEAFY) and isinstance(n, LEAFY):
+                worse('leaf')
+                diffs.append('`%s` instead of `%s`' % (ntext(n), ntext(p)))
+            else:
+                worse('shape')
+                diffs.append('%s instead of %s' % (type(n).__name__, type(p).__name__))
+            return
+        for fld, pv in ast.iter_fields(p):
+            if fld in ('ctx', 'lineno', 'col_offset', 'end_lineno', 'end_col_offset', 'type_comment', 'kind'):
+                continue
+            nv = getattr(n, fld, None)
+            if isinstance(pv, list):
+                if not isinstance(nv, list) or len(pv) != len(nv):
+                    worse('shape')
+                    diffs.append('%s.%s has %s entries, pattern %d' % (type(p).__name__, fld,
+                                                                        len(nv) if isinstance(nv, list) else '?', len(pv)))
+                    continue
+                for a, b in zip(pv, nv):
+                    if isinstance(a, ast.AST):
+                        rec(a, b)
+                    elif a != b:
+                        worse('leaf')
+            elif isinstance(pv, ast.AST):
+                if isinstance(pv, (ast.operator, ast.unaryop, ast.cmpop, ast.boolop)):
+                    if type(pv) is not type(nv):
+                        worse('leaf')
+                        diffs.append('operator %s instead of %s' % (type(nv).__name__, type(pv).__name__))
+                elif nv is None:
+                    worse('shape')
+                else:
+                    rec(pv, nv)
+            else:
+                if pv != nv:
+                    if nv is None or pv is None:
+                        worse('shape')
+                    else:
+                        worse('leaf')
+                        diffs.append('`%s` instead of `%s`' % (nv, pv))
+    rec(pattern, node)
+    return status[0], binds, diffs
+
+
+def best_match(patterns, node):
+    """the best status over alternative patterns -> (status, binds, diffs)"""
+    order = {'match': 0, 'leaf': 1, 'shape': 2}
+    best = None
+    for p in patterns:
+        r = pmatch(p, node)
+        if best is None or order[r[0]] < order[best[0]]:
+            best = r
+    return best
